@@ -369,6 +369,29 @@ func (w *quicWorld) MPresent(c int, k, proof string) string {
 	}
 }
 
+func (w *quicWorld) MHello(c int, k, proof string) string { return "not a P2PKE world" }
+func (w *quicWorld) MFinish(c int) string                 { return "not a P2PKE world" }
+
+func (w *quicWorld) Lookup(n, x, t string, timeout time.Duration) string {
+	ctx, cf := context.WithTimeout(w.ctx, timeout)
+	defer cf()
+	res := make(chan string, 1)
+	go func() {
+		k, err := w.swarms[n].LookupPublicKey(ctx, w.full(x, t))
+		if err != nil {
+			res <- "err"
+			return
+		}
+		res <- x509Name(&k)
+	}()
+	select {
+	case r := <-res:
+		return r
+	case <-time.After(timeout + 500*time.Millisecond):
+		return "err"
+	}
+}
+
 func (w *quicWorld) MAuth(c int, steps []Step) (string, [][]string) {
 	return "not an SSH world", nil
 }
